@@ -5,7 +5,13 @@
   resource.py into PyLite terms (Extracted/CalendarSrc.lean, regenerated on every check); Lemmas/CalendarSrc.lean
   proves that interpreting those terms equals the hand-written model (Model/Calendar.lean).
 
-  Trust base = this file + the translator.  Conventions:
+  A second evaluator over the same syntax ("scheduler layer", end of this file: `Expr.evalW`, `Stmt.execW`, `runW`)
+  adds a mutable usage ledger and handlers for method calls on other objects; tools/extract_schedule.py translates
+  the three methods of `_ResourceUsage` and the four inner loops of the schedulers (schedule.py) into
+  Extracted/ScheduleSrc.lean and Lemmas/ScheduleSrc.lean proves them equal to Model/Sched.lean.  The constructs that
+  only the second evaluator understands are `stuck` in the first one, which is otherwise unchanged.
+
+  Trust base = this file + the translators.  Conventions:
   * numbers are `Rat` (the model's abstraction of int/float), datetimes are `Time` (= Rat days), timedeltas are
     `Rat` days; a Python `bool` is a number (True = 1) for arithmetic, ordering and `==`, exactly as in Python;
   * objects with a `get_available_units` method are opaque references `ref i`; the call is interpreted through the
@@ -30,6 +36,8 @@ inductive Atom
   | time (t : Time)
   | delta (d : Rat)        -- `timedelta`, in days
   | ref (i : Nat)          -- an object answering `get_available_units(date)`; `ref 0` = `self`
+  | row (res : Nat) (date : Time) (task : Nat) (units : Rat)
+                          -- a `ResourceUsageRow(resource, date, task, units)` object (scheduler layer only)
   deriving DecidableEq, Repr, Inhabited
 
 inductive Val
@@ -98,6 +106,17 @@ inductive Expr
   | weekday (d : Expr)                    -- `d.weekday()`
   | index (d k : Expr)                    -- `d[k]`
   | isIn (k d : Expr)                     -- `k in d`
+  -- scheduler layer (interpreted by `Expr.evalW` only; `Expr.eval` is stuck on them)
+  | min (a b : Expr)                      -- `min(a, b)`
+  | timedeltaHours (h : Expr)             -- `timedelta(hours=e)`
+  | attr (e : Expr) (f : String)          -- `e.f` on a `ResourceUsageRow`
+  | listComp (elt : Expr) (x : String) (it cond : Expr)   -- `[elt for x in it if cond]`
+  | sum (l start : Expr)                  -- `sum(l, start)`
+  | app (param : String) (body arg : Expr)  -- call of a one-parameter static method `def f(param): return body`
+  | rows                                  -- `self.rows` (inside `_ResourceUsage`): the ledger
+  | mkRow (r d t u : Expr)                -- `ResourceUsageRow(r, d, t, u)`
+  | nearest (c d dir : Expr)              -- `c.get_nearest_availability_date(d, dir)`
+  | reserved (r d t : Expr)               -- `resource_usage.reserved(r, d, t)` (`t` = `None` when omitted)
   deriving Repr, Inhabited
 
 inductive Stmt
@@ -110,6 +129,11 @@ inductive Stmt
   | continue
   | ret (e : Expr)                                     -- `return e`
   | pass
+  -- scheduler layer (interpreted by `Stmt.execW` only; `Stmt.exec` is stuck on them)
+  | forRange (x : String) (lo hi : Expr) (body : List Stmt)   -- `for x in range(lo, hi): body`
+  | rowsAppend (e : Expr)                              -- `self.rows.append(e)` (inside `_ResourceUsage`)
+  | resReserve (c d t u : Expr)                        -- `c.reserve(d, t, u)` on a resource: `IResource.reserve` is `pass`
+  | augReserve (x : String) (op : BinOp) (r d t u : Expr)  -- `x op= resource_usage.reserve(r, d, t, u)`
   deriving Repr, Inhabited
 
 /-! ### environments -/
@@ -266,6 +290,16 @@ def Expr.eval (sub : Nat → Time → Res (Option Rat)) (self : Env) (env : Env)
     | .atom k, .list vs => pure (Atom.bool (vs.any (fun v => v.pyEq k)))
     | .atom _, .atom .none => throw (.crash .type)      -- argument of type 'NoneType' is not iterable
     | _, _ => throw stuck
+  | .min _ _ => throw stuck
+  | .timedeltaHours _ => throw stuck
+  | .attr _ _ => throw stuck
+  | .listComp _ _ _ _ => throw stuck
+  | .sum _ _ => throw stuck
+  | .app _ _ _ => throw stuck
+  | .rows => throw stuck
+  | .mkRow _ _ _ _ => throw stuck
+  | .nearest _ _ _ => throw stuck
+  | .reserved _ _ _ => throw stuck
 
 /-! ### statements -/
 
@@ -339,6 +373,10 @@ def Stmt.exec (sub : Nat → Time → Res (Option Rat)) (self : Env) (fuel : Nat
     | .ok v => .ret v
     | .error err => .raise err
   | .pass, env => .normal env
+  | .forRange _ _ _ _, _ => .raise stuck
+  | .rowsAppend _, _ => .raise stuck
+  | .resReserve _ _ _ _, _ => .raise stuck
+  | .augReserve _ _ _ _ _ _, _ => .raise stuck
 
 def execBlock (sub : Nat → Time → Res (Option Rat)) (self : Env) (fuel : Nat) : List Stmt → Env → Outcome
   | [], env => .normal env
@@ -365,5 +403,350 @@ def run (sub : Nat → Time → Res (Option Rat)) (body : List Stmt) (self : Env
   | .ok (.atom (.num q)) => pure (some q)
   | .ok _ => throw stuck
   | .error e => throw e
+
+/-! ## scheduler layer: a mutable ledger and handlers for method calls
+
+  The inner loops of schedule.py (`ForwardScheduler` / `BackwardScheduler`.`__get_resource_nearest_available_date`,
+  `__shift_by_resource_usage_and_calendar`) and the three methods of `_ResourceUsage` are interpreted by a second
+  evaluator over the same syntax.  It covers every construct of the first one and adds:
+
+  * a *ledger* `L : List LRow` — the state of the one `_ResourceUsage` object of a run (`self.rows` inside the class,
+    the parameter `resource_usage` inside the schedulers).  Expressions only read it; it is changed by the statements
+    `rowsAppend` and `augReserve`.  Rows are typed: resource and task are object references, the date is a datetime,
+    the units a number — anything else leaves the fragment (`stuck`);
+  * *handlers* for the method calls that leave the translated method: on a resource object `ref i`
+    (`get_available_units`, `get_nearest_availability_date` with its default `max_days`) and on the ledger object
+    (`reserved`, `reserve`).  Lemmas/ScheduleSrc.lean instantiates them with the interpretation of the translated
+    source of those methods.
+-/
+
+structure LRow where
+  res : Nat
+  date : Time
+  task : Nat
+  units : Rat
+  deriving DecidableEq, Repr, Inhabited
+
+def LRow.toAtom (x : LRow) : Atom := .row x.res x.date x.task x.units
+
+structure Handlers where
+  /-- `ref i`.get_available_units(t[, task]) -/
+  units : Nat → Time → Res (Option Rat)
+  /-- `ref i`.get_nearest_availability_date(t, dir) -/
+  nearest : Nat → Time → Int → Res Time
+  /-- `resource_usage.reserved(resource, date, task)` on the ledger -/
+  reserved : List LRow → Val → Val → Val → Res Val
+  /-- `resource_usage.reserve(resource, date, task, units)` on the ledger: result and new ledger -/
+  reserve : List LRow → Val → Val → Val → Val → Res (Val × List LRow)
+
+/-- an `int` -/
+def Atom.asInt? : Atom → Option Int
+  | .num q => if q.den = 1 then some q.num else Option.none
+  | _ => Option.none
+
+/-- `[elt for x in vs if cond]` where `f v` = `some elt` / `none` (filtered out) for the item `v` -/
+def compLoop (f : Atom → Res (Option Atom)) : List Atom → Res (List Atom)
+  | [] => pure []
+  | v :: vs => do
+    let o ← f v
+    let rest ← compLoop f vs
+    pure (match o with | some a => a :: rest | Option.none => rest)
+
+/-- `sum(vs, acc)` -/
+def sumLoop : Val → List Atom → Res Val
+  | acc, [] => pure acc
+  | acc, v :: vs => do
+    let acc' ← arith .add acc (.atom v)
+    sumLoop acc' vs
+
+/-- attribute of a `ResourceUsageRow` (a frozen dataclass with exactly these fields) -/
+def rowAttr (r : Nat) (d : Time) (t : Nat) (u : Rat) (f : String) : Res Val :=
+  if f = "resource" then pure (Atom.ref r)
+  else if f = "date" then pure (Atom.time d)
+  else if f = "task" then pure (Atom.ref t)
+  else if f = "units" then pure (Atom.num u)
+  else throw (.crash .attribute)
+
+def Expr.evalW (H : Handlers) (self : Env) (L : List LRow) (env : Env) : Expr → Res Val
+  | .none => pure Atom.none
+  | .num q => pure (Atom.num q)
+  | .bool b => pure (Atom.bool b)
+  | .var x => match env.get? x with
+    | some v => pure v
+    | Option.none => throw stuck
+  | .self => pure (Atom.ref 0)
+  | .field f => match self.get? f with
+    | some v => pure v
+    | Option.none => throw (.crash .attribute)
+  | .isNone e => do
+    let v ← e.evalW H self L env
+    pure (Atom.bool (decide (v = .atom .none)))
+  | .isNotNone e => do
+    let v ← e.evalW H self L env
+    pure (Atom.bool (!decide (v = .atom .none)))
+  | .cmp op a b => do
+    let x ← a.evalW H self L env
+    let y ← b.evalW H self L env
+    compare op x y
+  | .and a b => do
+    let x ← a.evalW H self L env
+    if (← truth x) then b.evalW H self L env else pure x
+  | .or a b => do
+    let x ← a.evalW H self L env
+    if (← truth x) then pure x else b.evalW H self L env
+  | .not a => do
+    let x ← a.evalW H self L env
+    pure (Atom.bool (!(← truth x)))
+  | .bin op a b => do
+    let x ← a.evalW H self L env
+    let y ← b.evalW H self L env
+    arith op x y
+  | .ite c a b => do
+    let x ← c.evalW H self L env
+    if (← truth x) then a.evalW H self L env else b.evalW H self L env
+  | .units c d => do
+    let o ← c.evalW H self L env
+    let t ← d.evalW H self L env
+    match o, t with
+    | .atom (.ref i), .atom (.time t) =>
+      match (← H.units i t) with
+      | some q => pure (Atom.num q)
+      | Option.none => pure Atom.none
+    | .atom .none, _ => throw (.crash .attribute)
+    | _, _ => throw stuck
+  | .dayStart d => do
+    match (← d.evalW H self L env) with
+    | .atom (.time t) => pure (Atom.time (midnight t))
+    | .atom .none => throw (.crash .attribute)
+    | _ => throw stuck
+  | .timedelta d => do
+    match (← d.evalW H self L env) with
+    | .atom .none => throw (.crash .type)
+    | .atom a => match a.asNum? with
+      | some q => pure (Atom.delta q)
+      | Option.none => throw stuck
+    | _ => throw stuck
+  | .weekday d => do
+    match (← d.evalW H self L env) with
+    | .atom (.time t) => pure (Atom.num ((Pj.weekday t : Nat) : Rat))
+    | .atom .none => throw (.crash .attribute)
+    | _ => throw stuck
+  | .index d k => do
+    let dv ← d.evalW H self L env
+    let kv ← k.evalW H self L env
+    match dv, kv with
+    | .dict kvs, .atom k => match Dict.get? kvs k with
+      | some v => pure v
+      | Option.none => throw (.crash .key)
+    | .atom .none, _ => throw (.crash .type)
+    | _, _ => throw stuck
+  | .isIn k d => do
+    let kv ← k.evalW H self L env
+    let dv ← d.evalW H self L env
+    match kv, dv with
+    | .atom k, .dict kvs => pure (Atom.bool (Dict.get? kvs k).isSome)
+    | .atom k, .list vs => pure (Atom.bool (vs.any (fun v => v.pyEq k)))
+    | .atom _, .atom .none => throw (.crash .type)
+    | _, _ => throw stuck
+  | .min a b => do                                      -- `min(a, b)`: `b` if `b < a` else `a`; numbers only
+    let x ← a.evalW H self L env
+    let y ← b.evalW H self L env
+    match x, y with
+    | .atom p, .atom q =>
+      match p.asNum?, q.asNum? with
+      | some u, some v => pure (if v < u then y else x)
+      | _, _ => throw stuck
+    | _, _ => throw stuck
+  | .timedeltaHours h => do
+    match (← h.evalW H self L env) with
+    | .atom .none => throw (.crash .type)
+    | .atom a => match a.asNum? with
+      | some q => pure (Atom.delta (q / 24))
+      | Option.none => throw stuck
+    | _ => throw stuck
+  | .attr e f => do
+    match (← e.evalW H self L env) with
+    | .atom (.row r d t u) => rowAttr r d t u f
+    | .atom .none => throw (.crash .attribute)
+    | _ => throw stuck
+  | .listComp elt x it cond => do                       -- `x` is local to the comprehension
+    let vs ← iterOf (← it.evalW H self L env)
+    let out ← compLoop (fun v => do
+      let c ← cond.evalW H self L (env.set x v)
+      if (← truth c) then
+        match (← elt.evalW H self L (env.set x v)) with
+        | .atom a => pure (some a)
+        | _ => throw stuck
+      else pure Option.none) vs
+    pure (Val.list out)
+  | .sum l start => do
+    let lv ← l.evalW H self L env
+    let s ← start.evalW H self L env
+    match lv with
+    | .list vs => sumLoop s vs
+    | _ => throw stuck
+  | .app param body arg => do                           -- a fresh scope holding the parameter only
+    let v ← arg.evalW H self L env
+    body.evalW H self L [(param, v)]
+  | .rows => pure (Val.list (L.map LRow.toAtom))
+  | .mkRow r d t u => do
+    let rv ← r.evalW H self L env
+    let dv ← d.evalW H self L env
+    let tv ← t.evalW H self L env
+    let uv ← u.evalW H self L env
+    match rv, dv, tv, uv with
+    | .atom (.ref r), .atom (.time d), .atom (.ref t), .atom (.num u) => pure (Atom.row r d t u)
+    | _, _, _, _ => throw stuck
+  | .nearest c d dir => do
+    let o ← c.evalW H self L env
+    let t ← d.evalW H self L env
+    let k ← dir.evalW H self L env
+    match o, t, k with
+    | .atom (.ref i), .atom (.time t), .atom k =>
+      match k.asInt? with
+      | some dir => do
+        let r ← H.nearest i t dir
+        pure (Atom.time r)
+      | Option.none => throw stuck
+    | .atom .none, _, _ => throw (.crash .attribute)
+    | _, _, _ => throw stuck
+  | .reserved r d t => do
+    let rv ← r.evalW H self L env
+    let dv ← d.evalW H self L env
+    let tv ← t.evalW H self L env
+    H.reserved L rv dv tv
+
+inductive OutcomeW
+  | normal (env : Env) (L : List LRow)
+  | cont (env : Env) (L : List LRow)
+  | ret (v : Val) (L : List LRow)
+  | raise (e : Err)
+  deriving Repr, Inhabited
+
+def forLoopW (x : String) (body : Env → List LRow → OutcomeW) : List Atom → Env → List LRow → OutcomeW
+  | [], env, L => .normal env L
+  | v :: vs, env, L =>
+    match body (env.set x v) L with
+    | .normal env' L' => forLoopW x body vs env' L'
+    | .cont env' L' => forLoopW x body vs env' L'
+    | r => r
+
+/-- `for x in range(i, i + n): body` -/
+def rangeLoopW (x : String) (body : Env → List LRow → OutcomeW) : Nat → Int → Env → List LRow → OutcomeW
+  | 0, _, env, L => .normal env L
+  | n + 1, i, env, L =>
+    match body (env.set x (.atom (.num (i : Rat)))) L with
+    | .normal env' L' => rangeLoopW x body n (i + 1) env' L'
+    | .cont env' L' => rangeLoopW x body n (i + 1) env' L'
+    | r => r
+
+def whileLoopW (cond : Env → List LRow → Res Bool) (body : Env → List LRow → OutcomeW) :
+    Nat → Env → List LRow → OutcomeW
+  | 0, _, _ => .raise stuck
+  | fuel + 1, env, L =>
+    match cond env L with
+    | .error err => .raise err
+    | .ok false => .normal env L
+    | .ok true =>
+      match body env L with
+      | .normal env' L' => whileLoopW cond body fuel env' L'
+      | .cont env' L' => whileLoopW cond body fuel env' L'
+      | r => r
+
+/-- the bounds of `range(lo, hi)`: two `int`s -/
+def rangeOf (lo hi : Val) : Res (Int × Nat) :=
+  match lo, hi with
+  | .atom a, .atom b =>
+    match a.asInt?, b.asInt? with
+    | some i, some j => pure (i, (j - i).toNat)
+    | _, _ => throw stuck
+  | _, _ => throw stuck
+
+mutual
+def Stmt.execW (H : Handlers) (self : Env) (fuel : Nat) : Stmt → Env → List LRow → OutcomeW
+  | .assign x e, env, L =>
+    match e.evalW H self L env with
+    | .ok v => .normal (env.set x v) L
+    | .error err => .raise err
+  | .aug x op e, env, L =>
+    match env.get? x with
+    | Option.none => .raise stuck
+    | some old =>
+      match e.evalW H self L env with
+      | .error err => .raise err
+      | .ok v =>
+        match arith op old v with
+        | .ok r => .normal (env.set x r) L
+        | .error err => .raise err
+  | .ifElse c t e, env, L =>
+    match (do truth (← c.evalW H self L env)) with
+    | .ok b => if b then execBlockW H self fuel t env L else execBlockW H self fuel e env L
+    | .error err => .raise err
+  | .forIn x e body, env, L =>
+    match (do iterOf (← e.evalW H self L env)) with
+    | .ok vs => forLoopW x (fun env' L' => execBlockW H self fuel body env' L') vs env L
+    | .error err => .raise err
+  | .while c body, env, L =>
+    whileLoopW (fun env' L' => do truth (← c.evalW H self L' env'))
+      (fun env' L' => execBlockW H self fuel body env' L') fuel env L
+  | .raiseRuntime, _, _ => .raise .runtime
+  | .continue, env, L => .cont env L
+  | .ret e, env, L =>
+    match e.evalW H self L env with
+    | .ok v => .ret v L
+    | .error err => .raise err
+  | .pass, env, L => .normal env L
+  | .forRange x lo hi body, env, L =>
+    match (do rangeOf (← lo.evalW H self L env) (← hi.evalW H self L env)) with
+    | .ok (i, n) => rangeLoopW x (fun env' L' => execBlockW H self fuel body env' L') n i env L
+    | .error err => .raise err
+  | .rowsAppend e, env, L =>
+    match e.evalW H self L env with
+    | .ok (.atom (.row r d t u)) => .normal env (L ++ [⟨r, d, t, u⟩])
+    | .ok _ => .raise stuck
+    | .error err => .raise err
+  | .resReserve c d t u, env, L =>
+    match (do
+      let o ← c.evalW H self L env
+      let _ ← d.evalW H self L env
+      let _ ← t.evalW H self L env
+      let _ ← u.evalW H self L env
+      pure o) with
+    | .ok (.atom (.ref _)) => .normal env L
+    | .ok (.atom .none) => .raise (.crash .attribute)
+    | .ok _ => .raise stuck
+    | .error err => .raise err
+  | .augReserve x op r d t u, env, L =>
+    match env.get? x with
+    | Option.none => .raise stuck
+    | some old =>
+      match (do
+        let rv ← r.evalW H self L env
+        let dv ← d.evalW H self L env
+        let tv ← t.evalW H self L env
+        let uv ← u.evalW H self L env
+        H.reserve L rv dv tv uv) with
+      | .error err => .raise err
+      | .ok (v, L') =>
+        match arith op old v with
+        | .ok res => .normal (env.set x res) L'
+        | .error err => .raise err
+
+def execBlockW (H : Handlers) (self : Env) (fuel : Nat) : List Stmt → Env → List LRow → OutcomeW
+  | [], env, L => .normal env L
+  | s :: ss, env, L =>
+    match s.execW H self fuel env L with
+    | .normal env' L' => execBlockW H self fuel ss env' L'
+    | r => r
+end
+
+/-- run a method body on the ledger `L` with the given parameter bindings: result and final ledger -/
+def runW (H : Handlers) (self : Env) (fuel : Nat) (body : List Stmt) (params : Env) (L : List LRow) :
+    Res (Val × List LRow) :=
+  match execBlockW H self fuel body params L with
+  | .normal _ L' => pure (Atom.none, L')
+  | .cont _ L' => pure (Atom.none, L')
+  | .ret v L' => pure (v, L')
+  | .raise e => throw e
 
 end Pj.PyLite
